@@ -4,8 +4,8 @@ from __future__ import annotations
 import ast
 import re
 
-from vk import astx, elect, facts
-from vk.algebra import Normalizer, bool_key, literals
+from vk import astx, elect, facts, pairsym
+from vk.algebra import Normalizer, NotClosedForm, bool_key, literals
 from vk.loader import AnalysisError
 from rules import c10
 
@@ -424,11 +424,43 @@ def r5_exact_accumulation(ctx):
         ctx.vanished(f"exact-accumulation obligations: only {n}")
 
 
+def r6_pair_symmetry(ctx):
+    """Neutrality of the pairwise rules: what is stored for an unordered pair {a, b} must not depend on which of the two
+    `combinations(candidates, 2)` happens to list first (that order is the candidate tuple's, i.e. set iteration order).
+    Decided by exchanging the two pair variables in the loop body and comparing the sets of guarded stores in normal form."""
+    prog = ctx.prog
+    n = 0
+    for f in prog.iter_functions(("src/votekit/graphs/", "src/votekit/elections/", "src/votekit/utils.py")):
+        if isinstance(f.node, ast.Lambda):
+            continue
+        loops = [x for x in astx.walk_own(f.node) if isinstance(x, ast.For)]
+        for lp, a, b in pairsym.pair_loops(f.node):
+            n += 1
+            idx = loops.index(lp)
+            try:
+                s0 = pairsym.store_signature(f.node, idx, a, b, False)
+                s1 = pairsym.store_signature(f.node, idx, a, b, True)
+            except NotClosedForm as e:
+                ctx.undecided(f, lp, f"{f.short}: pair loop stores are not in closed form", str(e))
+                continue
+            if not s0:
+                ctx.ok(f, lp, f"{f.short}: pair loop over ({a}, {b}) stores nothing", "no subscript store in the loop")
+            elif s0 == s1:
+                ctx.ok(f, lp, f"{f.short}: stores of the pair loop are invariant under exchanging `{a}` and `{b}`", f"{len(s0)} guarded stores compared in normal form")
+            else:
+                d = sorted((s0 - s1) | (s1 - s0), key=str)[0]
+                ctx.violated(f, lp, f"{f.short}: what is stored for a pair depends on which of `{a}`, `{b}` is listed first",
+                             f"after exchanging `{a}` and `{b}` the store `{d[0]}[{d[1]}] = {d[2][:80]}` under {sorted((q, sorted(r)) for q, r in d[3])} {sorted(d[4])} has no counterpart; the order of a pair is the candidate tuple's (set iteration) order")
+    if n < 1:
+        ctx.vanished("pair loops: no loop over combinations(<candidates>, 2) found")
+
+
 RULES = [
-    ("C08.R1", r1_ordering_primitives, 4, "no ordering primitive over candidate names / candidates-by-score outside the grouping idiom; no hash()/id()"),
+    ("C08.R1", r1_ordering_primitives, 3, "no ordering primitive over candidate names / candidates-by-score outside the grouping idiom; no hash()/id()"),
     ("C08.R2", r2_positional_picks, 8, "no positional pick from an unordered collection without a singleton proof"),
     ("C08.R3", r3_no_rng, 20, "no RNG reachable on deterministic paths (= C10.R1)"),
     ("C08.R5", r5_exact_accumulation, 10, "tallies are accumulated in exact rationals and weights are stored exactly (order / split / merge independence)"),
+    ("C08.R6", r6_pair_symmetry, 1, "pairwise stores are invariant under exchanging the two members of a candidate pair"),
     ("C08.R4", r4_recorded_order, 20, "the tuple order of every recorded group has a classified, iteration-order-free origin"),
 ]
 
@@ -437,7 +469,22 @@ STV = "src/votekit/elections/election_types/ranking/stv.py"
 PL = "src/votekit/elections/election_types/ranking/plurality.py"
 DS = "src/votekit/elections/election_types/ranking/dominating_sets.py"
 PG = "src/votekit/graphs/pairwise_comparison_graph.py"
+_PAIR_SYMMETRIC = """        for cand_a, cand_b in cand_pairs:
+            a_over_b = self.head2head_count(cand_a, cand_b)
+            b_over_a = self.head2head_count(cand_b, cand_a)
+            margin = a_over_b - b_over_a
+            if margin > 0:
+                pairwise_dict[(cand_a, cand_b)] = margin
+            elif margin < 0:
+                pairwise_dict[(cand_b, cand_a)] = -margin
+            else:
+                pairwise_dict[(cand_a, cand_b)] = Fraction(0)
+                pairwise_dict[(cand_b, cand_a)] = Fraction(0)
+
+"""
+_PAIR_ONE_SIDED = _PAIR_SYMMETRIC.replace("self.head2head_count(cand_b, cand_a)", "self.profile.total_ballot_wt - a_over_b")
 FAULTS = [
+    ("reverse count derived from the total weight (seeded C08-r2-1)", [(PG, ("        for pair in cand_pairs:", "        return pairwise_dict"), _PAIR_ONE_SIDED)], "C08.R6"),
     ("ranking sorted by (score, names)", [(UT, "score_to_cand.items(), key=lambda x: x[0], reverse=sort_high_low", "score_to_cand.items(), reverse=sort_high_low")], "C08.R1"),
     ("stv eliminates min by name on tie", [(STV, "                eliminated_cand = list(lowest_fpv_cands)[0]", "                eliminated_cand = min(lowest_fpv_cands)")], "C08.R1"),
     ("stv tie picks arbitrary member", [(STV, "            if len(lowest_fpv_cands) > 1:\n                tiebroken_ranking = tiebreak_set(", "            if len(lowest_fpv_cands) > 2:\n                tiebroken_ranking = tiebreak_set(")], "C08.R2"),
@@ -453,6 +500,7 @@ FAULTS = [
     ("next(iter()) pick", [(STV, "            c = list(s)[0]  # all cands in set have same score\n            if prev_state.scores[c] >= self.threshold:\n                elected.append(s)", "            c = next(iter(s))\n            if prev_state.scores[c] >= self.threshold:\n                elected.append(frozenset({c}))")], "C08.R"),
 ]
 BENIGN = [
+    ("pair loop rewritten with explicit margin branches", [(PG, ("        for pair in cand_pairs:", "        return pairwise_dict"), _PAIR_SYMMETRIC)]),
     ("pick via next(iter) as score key", [(STV, "            c = list(s)[0]  # all cands in set have same score\n", "            c = next(iter(s))  # all cands in set have same score\n")]),
     ("sorted over tier sizes with explicit key", [(PG, "tier_list = [tier_dict[k] for k in sorted(tier_dict.keys(), reverse=True)]", "tier_list = [tier_dict[k] for k in sorted(tier_dict.keys())[::-1]]")]),
 ]
